@@ -156,6 +156,77 @@ let fmt_sstate (s : sstate) : string =
     (String.concat "," es) (String.concat "," ps) (String.concat "," ws) (fmt_sketch s.s_sk)
     (List.length (live_ves s))
 
+(* Empirical check of the candidate invariant SInv (Sync/SInvDefs.v, extra = []) on model
+   states: used while developing the invariant, enabled with MM_CHECK_INV=1. *)
+let check_sinv (c : scfg) (s : sstate) : string list =
+  let fails = ref [] in
+  let fail x = fails := x :: !fails in
+  let infos = s_infos_list s and ves = s_ves_list s and m = s_map_list s in
+  let info_opt i = List.assoc_opt i infos and ve_opt v = List.assoc_opt v ves in
+  let n_eq a b = N.eqb a b in
+  let ve_ok k ve = match ve_opt ve with
+    | None -> false
+    | Some e -> (match info_opt e.sv_info with None -> false | Some i -> n_eq i.si_key k) in
+  let lt a b = N.ltb a b in
+  let wq = s.s_wq in
+  let up_ves = List.filter_map (function WUpsert (_, _, ve, _, _) -> Some ve | WRemove _ -> None) wq in
+  let has_upsert ve = List.exists (n_eq ve) up_ves in
+  let has_upsert_info i = List.exists (fun ve -> n_eq (get_ve s ve).sv_info i) up_ves in
+  let has_remove_info i = List.exists (function WRemove (_, ve) -> n_eq (get_ve s ve).sv_info i | _ -> false) wq in
+  List.iter (fun (k, ve) -> if not (ve_ok k ve) then fail "sv_map") m;
+  List.iter (fun (ve, e) -> if not (lt ve s.s_next) || info_opt e.sv_info = None then fail "sv_ves_lt") ves;
+  List.iter (fun (i, _) -> if not (lt i s.s_next) then fail "sv_infos_lt") infos;
+  List.iter (function
+      | WUpsert (k, h, ve, _, nw) ->
+        if not (ve_ok k ve && n_eq h (c.sc_hash k) && n_eq nw (sweigh c k (get_ve s ve).sv_val)) then fail "sv_wq_upsert"
+      | WRemove (k, ve) -> if not (ve_ok k ve) then fail "sv_wq_remove") wq;
+  List.iter (function RHit (_, ve, _) -> if ve_opt ve = None then fail "sv_rq" | RMiss _ -> ()) s.s_rq;
+  let rec nodup = function [] -> true | x :: r -> not (List.exists (n_eq x) r) && nodup r in
+  if not (nodup (List.map fst s.s_prob)) then fail "sn_nodup_ao";
+  if not (nodup (List.map fst s.s_wo)) then fail "sn_nodup_wo";
+  List.iter (fun (n, nd) ->
+      if not (lt n s.s_next) then fail "sn_ao_lt";
+      match info_opt nd.sa_info with
+      | Some x when (match x.si_ao with Some n' -> n_eq n n' | None -> false)
+                    && n_eq nd.sa_key x.si_key && n_eq nd.sa_hash (c.sc_hash x.si_key) -> ()
+      | _ -> fail "sn_ao_info") s.s_prob;
+  List.iter (fun (n, nd) ->
+      if not (lt n s.s_next) then fail "sn_wo_lt";
+      if c.sc_ttl = None then fail "sn_wo_info_ttl";
+      match info_opt nd.sw_info with
+      | Some x when (match x.si_wo with Some n' -> n_eq n n' | None -> false) && n_eq nd.sw_key x.si_key -> ()
+      | _ -> fail "sn_wo_info") s.s_wo;
+  List.iter (fun (i, x) ->
+      (match x.si_ao with
+       | Some n -> if not (List.exists (fun (n', nd) -> n_eq n n' && n_eq nd.sa_info i) s.s_prob) then fail "sn_info_ao"
+       | None -> ());
+      (match x.si_wo with
+       | Some n -> if not (List.exists (fun (n', nd) -> n_eq n n' && n_eq nd.sw_info i) s.s_wo) then fail "sn_info_wo"
+       | None -> ());
+      if x.si_admitted <> (x.si_ao <> None) then fail "sn_admitted_ao";
+      (match c.sc_ttl with
+       | Some _ -> if x.si_admitted <> (x.si_wo <> None) then fail "sn_admitted_wo"
+       | None -> if x.si_wo <> None then fail "sn_admitted_wo_none");
+      if x.si_admitted && not (map_has_info s x.si_key i || has_remove_info i) then fail "sg_no_ghost";
+      if x.si_dirty && not (has_upsert_info i) then fail "sd_dirty";
+      if not (lt x.si_weight two32) then fail "sa_weight_lt") infos;
+  List.iter (fun (k, ve) ->
+      let i = get_info s (get_ve s ve).sv_info in
+      if (not i.si_admitted) && not (has_upsert ve) then fail "so_no_orphan";
+      if not (has_upsert ve || n_eq i.si_weight (sweigh c k (get_ve s ve).sv_val)) then fail "sw_weight";
+      if not (has_upsert ve || List.for_all (fun v -> lt ve v) up_ves) then fail "sf_applied_older";
+      List.iter (fun (v, e) -> if n_eq e.sv_info (get_ve s ve).sv_info && lt ve v then fail "sf_newest") ves) m;
+  let rec sorted = function a :: (b :: _ as r) -> lt a b && sorted r | _ -> true in
+  if not (sorted up_ves) then fail "sf_sorted";
+  let adm = List.filter (fun (_, x) -> x.si_admitted) infos in
+  if int_of_n s.s_ec <> List.length adm then fail "sa_ec";
+  if not (n_eq s.s_ws (List.fold_left (fun acc (_, x) -> N.add acc x.si_weight) N0 adm)) then fail "sa_ws";
+  if List.length s.s_rq > 64 then fail "sq_rq";
+  if List.length s.s_wq > 64 then fail "sq_wq";
+  if s.s_skon = false && (s.s_sk.sk_tlen <> N0) then fail "sk_sketch";
+  if Sys.getenv_opt "MM_CHECK_INV" = Some "selftest" && List.length s.s_wq > 3 then fail "selftest_wq_gt_3";
+  List.sort_uniq compare !fails
+
 let parse_sop toks : sop =
   match toks with
   | [ "I"; k; v ] -> SInsert (n_of_string k, n_of_string v)
@@ -239,6 +310,10 @@ let process (ic : in_channel) =
               (match sstep c r (parse_sop toks) with
                | Ok (r', out) ->
                  Printf.printf "%d %s -> %s | %s\n" !idx line (fmt_sout out) (fmt_sstate r'.sr_state);
+                 if Sys.getenv_opt "MM_CHECK_INV" <> None then
+                   (match check_sinv c r'.sr_state with
+                    | [] -> ()
+                    | fs -> Printf.printf "%d INV-FAIL %s\n" !idx (String.concat "," fs));
                  mode := MSync (c, r')
                | Err e ->
                  Printf.printf "%d %s -> ERR %s\n" !idx line (string_of_err e);
